@@ -89,7 +89,7 @@ CLAIMED["C10"] = {
   "technique": "run-time contract checking of the real compiled layout classes on a bounded seeded input space (the bounded stand-in of the contract family; nothing is proved)"}
 CLAIMED["C17"] = {
   "category": "exploration",
-  "text": "NOT a proof: no deductive obligation exists for this property (Type/Form hierarchies and string round trips; Form <-> JSON and the Lark type parser need rapidjson / Python and are NOT covered). What is checked is, by run-time contracts on the real compiled classes over a bounded seeded input space (Engine N family types): the item type printed for an array (Content::type with the default type strings) is the documented datashape-like syntax for its data (var *, N *, ?T / option[...], records, tuples, unions, string, bytes, dtypes) for every physical encoding; the type obtained from the form (Content::form -> Form::type) equals the type obtained from the array (also by Type::equal); a range slice has the same type; an element taken out of a list-typed array has the inner type; minmax_depth agrees with the value. 1200 (quick) / 20000 (thorough) cases.",
+  "text": "NOT a proof: no deductive obligation exists for this property (Type/Form hierarchies and string round trips; Form <-> JSON and the Lark type parser need rapidjson / Python and are NOT covered). What is checked is, by run-time contracts on the real compiled classes over a bounded seeded input space (Engine N family types): the item type printed for an array (Content::type with the default type strings) is the documented datashape-like syntax for its data (var *, N *, ?T / option[...], records, tuples, named records Name[...], categorical[type=...] incl. the general struct[...]/tuple[..., parameters={...}] spelling when a name meets another parameter, unions, string, bytes, dtypes) for every physical encoding; the type obtained from the form (Content::form -> Form::type) equals the type obtained from the array (also by Type::equal); a range slice has the same type; an element taken out of a list-typed array has the inner type; minmax_depth agrees with the value. 1200 (quick) / 20000 (thorough) cases.",
   "ref": "DESIGN.md section 5 (C17)",
   "note": "Bounded exploration only; Form -> JSON -> Form, type printing <-> re-parsing (src/awkward/_typeparser), forms.py/types.py and the high-level ak.type (array length prefix) are NOT covered. Trusted: the rapidjson stand-in (parameters compared as JSON text), the reference type syntax in akvlib/nat/engine.py (ref_type).",
   "technique": "run-time contract checking of the real compiled layout and type classes on a bounded seeded input space (the bounded stand-in of the contract family; nothing is proved)"}
